@@ -547,6 +547,7 @@ def check(prop, tier, verif_seed, budget_s=None, jobs=None, max_runs=None,
     known = load_known()
     tolerate = open_ids(known)
     engine = engine_for(prop)
+    kernel.clean_scratch()
     kernel.install_seams()      # import desper here: children fork from this
 
     def canon():
@@ -680,6 +681,7 @@ def check(prop, tier, verif_seed, budget_s=None, jobs=None, max_runs=None,
     if write_evidence and not os.environ.get('VERIF_NO_EVIDENCE'):
         write_evidence_file(engine, prop, tier, verif_seed, agg, wall,
                             violations, known)
+    kernel.clean_scratch()
     rate = agg['runs'] / max(wall, 1e-9)
     print(f'{prop} {tier}: runs={agg["runs"]} nontrivial={agg["nontrivial"]} '
           f'distinct={len(agg["digests"])} foreign_abort='
